@@ -290,3 +290,28 @@ pub fn date_table(input: &[u8], query: &str) -> String {
     }
     out.join(" ")
 }
+
+
+/// kill a child process (SIGKILL) when it is still running after `secs`; the caller sets `.0` once
+/// the child has been waited for, and reads `.1` to learn whether the watchdog fired
+pub fn kill_after(pid: u32, secs: u64) -> (std::sync::Arc<std::sync::atomic::AtomicBool>, std::sync::Arc<std::sync::atomic::AtomicBool>) {
+    use std::sync::atomic::{AtomicBool, Ordering};
+    use std::sync::Arc;
+    let done = Arc::new(AtomicBool::new(false));
+    let fired = Arc::new(AtomicBool::new(false));
+    let (d, f) = (done.clone(), fired.clone());
+    std::thread::spawn(move || {
+        let t0 = std::time::Instant::now();
+        while !d.load(Ordering::SeqCst) {
+            if t0.elapsed().as_secs() >= secs {
+                f.store(true, Ordering::SeqCst);
+                unsafe {
+                    libc::kill(pid as i32, libc::SIGKILL);
+                }
+                break;
+            }
+            std::thread::sleep(std::time::Duration::from_millis(20));
+        }
+    });
+    (done, fired)
+}
